@@ -3,20 +3,24 @@ from . import COMMON_TB, NOTE
 PROP = {
     "modules": ["Proofs.C09"],
     "streams": [{"name": "cmp"}],
-    "rule": "cmp: every unordered pair of a 169-value universe (its size is recorded on every run in the evidence note "
-            "cmp:universe; nil, booleans, all ten integer widths at 0, +-1, min, max, "
-            "2^53+-1, finite floats incl. 2^53, 2^63, 2^64, strings, generic and typed arrays, maps of several key types, ordered "
-            "maps, drops, pointers, ranges, structs), bound to variables, each pair evaluated by the real parser and grammar "
+    "rule": "cmp: every unordered pair of a 170-value universe (its size is recorded on every run in the evidence note "
+            "cmp:universe; nil, booleans, all ten integer widths of the codec at 0, 1, -1 (signed), min, max, "
+            "2^53, +-(2^53+1), finite floats incl. 2^53, 2^53+2, +-2^63, 2^64, strings, generic and typed arrays, maps of several key types, ordered "
+            "maps, drops incl. a drop yielding a drop, pointers, ranges, times, structs, []byte and IterationKeyedMap), bound to variables, each pair evaluated by the real parser and grammar "
             "actions for ==, !=, <, >, <=, >=, contains in both orders; every value against itself and against two fixed "
             "partners also as array elements (dropWrapper path: forms ee, ev, ve); truthiness of "
             "every value, as variable and as array element, through `and`, `or` and a rendered {% if %}; random value trees "
             "against independent trees and against representation variants of themselves (variable and element forms at "
-            "random); random and/or/parenthesised conditions over three values. No NaN, +-Inf or -0 operand is generated. "
+            "random); random and/or/parenthesised conditions over three values; an implementation-only family (shard 0; the codec has no "
+            "uintptr, so there is no model side): a uintptr operand must give in ==, !=, <, >, <=, >=, case/when, contains, sort and uniq "
+            "what the uint64 of the same value gives (clause uintptr-compares-as-uint64, /repo a51d517). No NaN, +-Inf or -0 operand is generated. "
             "A pair is non-trivial when ==, < or > holds; distinct by case line",
     "trusted_base": COMMON_TB,
     "assumptions": ["the model's Equal/Less/ValueOf/Contains/Test and grammar actions describe values/*.go and "
-                    "expressions.y after fixes C09-1..3 (0fd7bf4, 2a48d77, 17eb697) and map-contains-like-lookup (0f52a45: "
-                    "a map contains a key exactly when looking it up finds an entry): checked by the cmp stream on every run",
+                    "expressions.y after fixes C09-1..3 (0fd7bf4, 2a48d77, 17eb697), map-contains-like-lookup (0f52a45: "
+                    "a map contains a key exactly when looking it up finds an entry) and nested-drops-resolved (e3953ba: ToLiquid, and "
+                    "with it Equal and Less, follows a drop that yields a drop to the end): checked by the cmp stream on every run; "
+                    "uintptr (an integer kind for ==, < and sort since a51d517) is not a kind of the model: tested on the real engine only",
                     "int-vs-float comparison is specified as conversion to the join type float64 (README); it coincides "
                     "with comparison by numeric value for |n| <= 2^53 (theorem equal_num / less_num)",
                     "floats are finite and not -0 (exact rationals in the model): NaN, +-Inf and -0 operands are neither "
@@ -33,16 +37,19 @@ TEXT = {
             "kinds nil / bool / number / string / array / map, values of different kinds are never equal and never ordered "
             "(equal_kind, less_unlike; kind `other` - ordered maps, ranges, time, structs - is excluded by hypothesis); "
             "slices and arrays are equal iff same length "
-            "and element-wise equal (equal_array); integers of all ten widths compare exactly, an integer and a float "
-            "after float64 conversion which is the numeric value for |n| <= 2^53 (equal_num, equal_num_join, less_num); "
+            "and element-wise equal (equal_array); integers of all ten widths of the model (Go's eleventh integer kind, uintptr, is not "
+            "a value of the model: no theorem, see the stream) compare exactly, an integer and a float "
+            "after float64 conversion which is the numeric value for |n| <= 2^53 (equal_num, equal_num_join, less_num, "
+            "less_num_join; hypothesis numOK: a value of an unsigned kind is not negative); "
             "strings compare lexicographically on bytes (less_str); contains is substring for a string needle / membership by "
-            "== / the key lookup of m[k] with the needle converted to the key type (contains_str, contains_arr, contains_map, "
+            "== (the iff of contains_arr when every element comparison is answered by the model) / the key lookup of m[k] with the needle converted to the key type (contains_str, contains_arr, contains_map, "
             "contains_map_agrees_with_lookup); and/or treat exactly nil and false as false (truthy_iff, and_or_truthy); no "
             "operator ever panics (rel_no_panic, ops_no_panic, cond_no_panic). The model is compared with the real "
-            "parser+evaluator on all pairs of a 169-value universe and on random trees and conditions each run; the coherence "
+            "parser+evaluator on all pairs of a 170-value universe and on random trees and conditions each run; the coherence "
             "laws (symmetry on every pair; reflexivity on every tree without structs, pointers below the top level and "
-            "drops yielding drops) and the kind table are "
-            "evaluated on the real results.",
+            "drops yielding drops below the top level) and the kind table are "
+            "evaluated on the real results; a uintptr operand is compared, on the real engine only, with the uint64 of the "
+            "same value (repair a51d517).",
     "design_ref": "DESIGN.md 6 C09",
     "note": NOTE + "Floats are finite and not -0 (exact rationals): NaN, +-Inf and -0 operands are neither modelled nor "
                    "generated (Go's NaN == NaN is false, so reflexivity is not claimed there). Reflexivity, symmetry and "
@@ -51,6 +58,9 @@ TEXT = {
                    "harness structs, fmt.Sprint of a float/container needle of a string contains, contains on a struct, map "
                    "contains with a numeric needle that does not convert into an integer key type without wrap-around, "
                    "maps with non-scalar keys, []byte and IterationKeyedMap (the driver rewrites these two to []uint8 / "
-                   "map[string]any).",
+                   "map[string]any). A uintptr is outside the model and the codec altogether (no case line can carry one): that it "
+                   "compares as the uint64 of the same value is an implementation-only family of `cmp`, not a theorem. Since e3953ba "
+                   "ToLiquid follows a drop that yields a drop to the end in the real code and in the model (toLiq); WF still excludes "
+                   "such a drop below the top level, so reflexivity / symmetry / totality are not claimed for it.",
     "technique": "Lean 4 proof (mutual structural induction on the value tree) + model/implementation correspondence",
 }
